@@ -4,6 +4,11 @@ import json, os
 V = os.path.dirname(os.path.dirname(os.path.abspath(__file__)))
 ALL = ["C%02d" % i for i in range(1, 21)]
 CLAIMED = {
+ "C05": dict(
+   text="Machine-checked proofs (Coq; the split/negotiation theorems are axiom-free, the fastexp theorems use the standard real-number axioms) about the model of SIMD evaluation: for EVERY packet width w, row length n >= 2w and accepted offset the scalar prologue, packet body and scalar epilogue cover each element exactly once, the body is a whole number of packets, and the target and every array operand - whatever the shape of the expression tree, since the offset combination rule is proved associative and commutative - are accessed at packet-aligned addresses in every packet; offset clash or disagreement with the target falls back to scalar; with lane-wise packet operations the three loops yield element by element what the scalar loop yields; a vectorized reduction equals the scalar one in any commutative monoid (re-association is the only difference). fastexp: the computation translated from quick_e.h on every run (constants rounded as the compiler rounds them) has relative method error <= 2^-55 (double) and 2^-25 (float) for every argument the range test lets through. Tie: hook counters (prologue, packets, epilogue) of ~1.6 million statements per run compared with the extracted model in SSE2, AVX, AVX2+FMA and AVX-512F builds, every element compared bitwise with Adept's scalar path and a plain loop.",
+   note="Partial where the truth is floating-point hardware behaviour: 'a packet operation is the lane-wise IEEE operation' is modelled and observed by the sweep, not proved; the 2 ulp claim for fastexp is the proved method error plus observed rounding error (sweep of ~60000 arguments per type and build, <= 1.3 ulp seen); the rounding bound of re-associated accumulation is the standard 2*gamma_n*sum|x_i| used as oracle. Instruction sets the host CPU lacks are skipped and listed in the evidence. FixedArray targets are not vectorized by the library and are outside the sweep.",
+   technique="Coq proof of loop partition/alignment (arithmetic over Z for all widths and lengths) and of fastexp method error (Interval tactic over generated real-number definitions) + differential run of hook counters and element values in four instruction-set builds",
+   design="DESIGN.md §4 C05"),
  "C07": dict(
    text="Machine-checked proof (Coq, axiom-free) over the life-cycle model of Storage/Array: for EVERY history of sized/default/copy/slice/soft-link/external construction, link, copy and move assignment (three kinds of temporaries), resize, clear, destruction and writes, each undeleted Storage's link count equals the number of live array objects owning a link (>= 1), no owner refers to deleted data, existing objects = created - deleted, no link operation ever touches deleted storage (no double free), all data is released when the last object goes (no leak), and '=' never makes the target refer to memory it did not already refer to other than a Storage created by that very operation (so later changes to the source or to external/stack memory cannot show through). Tie: extracted model compared after every operation with the real classes under ASan+LeakSanitizer, and both compared with an independent Python specification of sharing-vs-copy semantics.",
    note="Rank-1 arrays and contiguous views in model and harness (higher ranks, FixedArray and SpecialMatrix use the same Storage protocol); freeing data still addressed by a soft link is a documented user error and excluded; defect D2 (move-assign from a temporary on user memory aliased it) was repaired (fix commit 1075e40).",
